@@ -364,6 +364,37 @@ func c02Oracle(pl *c02Plan, insts []*c02Inst, ops []*c02OpRec, horizon time.Dura
 				}
 				out.Probes["periodic-tick-checked"]++
 			}
+			// "a job cancelled never runs": once a cancellation that certainly met this job has returned and the
+			// invocation that was under way then (if any) has ended, no further invocation starts at a later instant
+			// (at the same instant the loop may still find its timer ready next to the cancellation)
+			for _, o := range ops {
+				if !certain(o, in) || o.callT <= in.schedAt {
+					continue
+				}
+				if !(o.op.Kind == "cancel" && o.err == nil) && o.op.Kind != "cancelif" && o.op.Kind != "cancelprefix" {
+					continue
+				}
+				quiet := o.retT
+				open := false
+				for _, iv := range in.invs {
+					if iv.startStep <= o.retStep {
+						if !iv.done {
+							open = true
+						} else if iv.end > quiet {
+							quiet = iv.end
+						}
+					}
+				}
+				if open {
+					continue
+				}
+				for _, iv := range in.invs {
+					if iv.startStep > o.retStep && iv.start > quiet {
+						return Viol("C02/periodic-ran-after-cancel", "periodic job %s was cancelled (%s returned at %v, the invocation then under way ended by %v) but an invocation started at %v (invocations %s)", in.name, o.op.Kind, o.retT, quiet, iv.start, c02Invs(in))
+					}
+				}
+				out.Probes["periodic-cancel-checked"]++
+			}
 			for _, o := range ops {
 				if o.op.Kind == "run" && o.err == nil && certain(o, in) && !in.ctxCancelled && o.callT < cancelT {
 					found := false
